@@ -1074,8 +1074,8 @@ class OdeSystem(object):
                             self.counter += 1
 
                     if not self.__dense_output:
-                        for _ in range(__pre_length - 1):
-                            self.__sol.remove_interpolant(0)
+                        for _ in range(min(__pre_length, len(self.__sol)) - 1):
+                            self.__sol.remove_interpolant(0 if dTime >= 0 else -1)
 
                 steps += 1
                 
